@@ -260,7 +260,7 @@ func (b *Backend) respond(c net.Conn, bh Behaviour, s *Seen) bool {
 	}
 	head := func(extra string) string {
 		var sb strings.Builder
-		fmt.Fprintf(&sb, "HTTP/1.1 %d %s\r\n", status, http.StatusText(status))
+		fmt.Fprintf(&sb, "HTTP/1.1 %03d %s\r\n", status, http.StatusText(status))
 		for _, h := range bh.Headers {
 			fmt.Fprintf(&sb, "%s: %s\r\n", h[0], h[1])
 		}
